@@ -33,8 +33,14 @@ pub enum EstComp {
     CtxByte,
     CtxLonger,
     CtxFresh,
+    /// context input with 1-3 zero bytes appended (padding-like)
+    CtxAppendZeros,
+    /// a zero byte prepended
+    CtxPrependZero,
+    /// the SHA3-256 digest of the input used as the input
+    CtxDigestOfInput,
 }
-const EST_COMPS: [EstComp; 12] = [
+const EST_COMPS: [EstComp; 15] = [
     EstComp::Key,
     EstComp::CidBit,
     EstComp::CidFresh,
@@ -47,6 +53,9 @@ const EST_COMPS: [EstComp; 12] = [
     EstComp::CtxByte,
     EstComp::CtxLonger,
     EstComp::CtxFresh,
+    EstComp::CtxAppendZeros,
+    EstComp::CtxPrependZero,
+    EstComp::CtxDigestOfInput,
 ];
 
 #[derive(Clone, Copy, Debug, Serialize, Deserialize, Hash, PartialEq, Eq)]
@@ -62,8 +71,10 @@ pub enum PayComp {
     AmountZero,
     CtxByte,
     CtxFresh,
+    CtxAppendZeros,
+    CtxDigestOfInput,
 }
-const PAY_COMPS: [PayComp; 11] = [
+const PAY_COMPS: [PayComp; 13] = [
     PayComp::Key,
     PayComp::RangeParams,
     PayComp::RevParams,
@@ -75,6 +86,8 @@ const PAY_COMPS: [PayComp; 11] = [
     PayComp::AmountZero,
     PayComp::CtxByte,
     PayComp::CtxFresh,
+    PayComp::CtxAppendZeros,
+    PayComp::CtxDigestOfInput,
 ];
 
 #[derive(Clone, Debug, Serialize, Deserialize)]
@@ -89,8 +102,8 @@ fn strategy(t: Tier) -> impl Strategy<Value = Case> {
     let est_seeds = t.pick(40u64, 400);
     let pay_seeds = t.pick(6u64, 60);
     prop_oneof![
-        16 => (0..est_seeds, 0u8..12, any::<u64>()).prop_map(|(seed, comp, r)| Case::Establish { seed, comp, r }),
-        5 => (0..pay_seeds, 0u8..11, any::<u64>()).prop_map(|(seed, comp, r)| Case::Pay { seed, comp, r }),
+        16 => (0..est_seeds, 0u8..15, any::<u64>()).prop_map(|(seed, comp, r)| Case::Establish { seed, comp, r }),
+        5 => (0..pay_seeds, 0u8..13, any::<u64>()).prop_map(|(seed, comp, r)| Case::Pay { seed, comp, r }),
         8 => (0u8..4, 0u8..4, 0u8..5).prop_map(|(from, to, what)| Case::Replay { from, to, what }),
         50 => (0u8..4, 0u8..4, 0u8..4, 0u8..4, 0u8..3, any::<u64>()).prop_map(|(sess, other, stage, field, how, r)| Case::Closing { sess, other, stage, field, how, r }),
     ]
@@ -187,7 +200,7 @@ fn oracle(c: &Case, rec: &Rec) -> R {
     match c {
         Case::Establish { seed, comp, r } => {
             let h = honest(*seed);
-            let comp = EST_COMPS[*comp as usize % 12];
+            let comp = EST_COMPS[*comp as usize % 15];
             let ctx0 = Context::new(&h.ctx_input);
             let run = |m: &proto::Merchant, cid: &ChannelId, cb: u64, mb: u64, ctx: &Context| -> bool {
                 let p: EstablishProof = wire::dec(&h.est_img.bytes).unwrap();
@@ -212,6 +225,9 @@ fn oracle(c: &Case, rec: &Rec) -> R {
                 }
                 EstComp::CtxLonger => input.push(*r as u8),
                 EstComp::CtxFresh => input = ctx_input(*r, 1 + (*r % 64) as usize),
+                EstComp::CtxAppendZeros => input.extend(std::iter::repeat(0u8).take(1 + (*r % 3) as usize)),
+                EstComp::CtxPrependZero => input.insert(0, 0),
+                EstComp::CtxDigestOfInput => input = crate::engine::refmath::sha3(&[&input]).to_vec(),
             }
             // near substitutions must really change the encoded scalar
             let cid: ChannelId = wire::dec(&cidb).unwrap();
@@ -226,7 +242,7 @@ fn oracle(c: &Case, rec: &Rec) -> R {
         }
         Case::Pay { seed, comp, r } => {
             let h = honest(*seed);
-            let comp = PAY_COMPS[*comp as usize % 11];
+            let comp = PAY_COMPS[*comp as usize % 13];
             let ctx0 = Context::new(&h.ctx_input);
             let run = |m: &proto::Merchant, amt: i64, nonce: &[u8], ctx: &Context| -> Option<bool> {
                 let p: PayProof = wire::dec(&h.pay_img.bytes).unwrap();
@@ -250,6 +266,8 @@ fn oracle(c: &Case, rec: &Rec) -> R {
                     input[i] ^= 1 << ((*r >> 16) % 8);
                 }
                 PayComp::CtxFresh => input = ctx_input(*r, 1 + (*r % 64) as usize),
+                PayComp::CtxAppendZeros => input.extend(std::iter::repeat(0u8).take(1 + (*r % 3) as usize)),
+                PayComp::CtxDigestOfInput => input = crate::engine::refmath::sha3(&[&input]).to_vec(),
             }
             if amt == h.amt && matches!(comp, PayComp::AmountNegated | PayComp::AmountZero) {
                 rec.class("substitution-without-effect(amount)");
